@@ -6,6 +6,11 @@ import "reflect"
 
 // zHistoryOp applies one earlier use to a serializer / encoder / decoder triple.
 func zHistoryOp(op int, s Serializer, e *Encoder, d *Decoder) {
+	zHistoryOpOn(op, s, e, d, nil)
+}
+
+// zHistoryOpOn: probe (may be nil) lets earlier uses involve the very objects the probe call will see.
+func zHistoryOpOn(op int, s Serializer, e *Encoder, d *Decoder, probe *ZPair) {
 	switch op {
 	case 0: // nothing
 	case 1: // successful one-shot encodes of other types
@@ -40,8 +45,96 @@ func zHistoryOp(op int, s Serializer, e *Encoder, d *Decoder) {
 	case 6: // a class with the same name length, other fields, encoded first
 		e.Encode(&ZTriple{A: 1, B: "b", C: 2})
 		s.ToBytes(&ZTriple{A: 1, B: "b", C: 2})
+	case 7: // earlier encodes of nil / empty containers and plain values only
+		e.Encode([]string{})
+		e.Encode(int32(5))
+		s.ToBytes([]int32{})
+		s.ToBytes("plain")
+	case 8: // an earlier message that contained the probe's own objects (same addresses)
+		if probe != nil {
+			e.Encode(probe.B)
+			e.Encode(probe)
+			s.ToBytes([]interface{}{probe.A, probe.L})
+		}
+	case 9: // an earlier decode of the probe's classes from definitions that list the fields in another order
+		w := refCat(refClassDef("ZPair", []string{"l", "b", "a", "n"}), []byte{0x60}, []byte{'N'},
+			refClassDef("ZInner", []string{"s", "n"}), []byte{0x61}, refStr("x"), refInt(1), []byte{0x51, 0x91}, refInt(3))
+		s.ToObject(w)
+		d.Decode(w)
+	case 10: // a failed encode of a container holding the probe's objects
+		if probe != nil {
+			bad := []interface{}{probe.A, probe, make(chan int)}
+			e.Encode(bad)
+			s.ToBytes(bad)
+		}
 	}
 }
+
+// ZPair: probe with shared pointers, so that its encoding contains back-references.
+type ZPair struct {
+	N int32
+	A *ZInner
+	B *ZInner
+	L []*ZInner
+}
+
+func eqZPair(a, b *ZPair) bool {
+	if a.A == nil || a.B == nil || b.A == nil || b.B == nil || len(a.L) != len(b.L) {
+		return false
+	}
+	ok := vAnd(a.N == b.N, vAnd(eqZInner(a.A, b.A), eqZInner(a.B, b.B)))
+	for i := range a.L {
+		ok = vAnd(ok, eqZInnerP(a.L[i], b.L[i]))
+	}
+	// same sharing
+	if (a.A == a.B) != (b.A == b.B) {
+		return false
+	}
+	for i := range a.L {
+		if (a.L[i] == a.A) != (b.L[i] == b.A) {
+			return false
+		}
+	}
+	return ok
+}
+
+// H_C11_reuse_refs: the probe contains shared pointers (back-references on the wire); earlier uses include
+// messages holding the probe's own objects, empty containers only, failed encodes, and decodes of the same
+// classes from differently ordered definitions.
+func H_C11_reuse_refs() {
+	in := &ZInner{N: vInt32("n"), S: "sh"}
+	probe := &ZPair{N: 3, A: in, B: in, L: []*ZInner{in, {N: 4, S: "o"}, in}}
+	tm, nm := vExtractAll(probe, &ZTriple{})
+	s := NewSerializer(tm, nm)
+	e := NewEncoder(nil, nm)
+	d := NewDecoder(nil, tm)
+	h := 1
+	if vTier() == 1 {
+		h = 2
+	}
+	for i := 0; i < h; i++ {
+		zHistoryOpOn(vChoice("op", 11), s, e, d, probe)
+	}
+	vFreeze(probe, "probe-value")
+	vFreeze(nm, "name-map")
+	vFreeze(tm, "type-map")
+	fresh, ferr := NewEncoder(nil, nm).Encode(probe)
+	vAssert("fresh-ok", ferr == nil)
+	b1, err1 := s.ToBytes(probe)
+	b2, err2 := e.Encode(probe)
+	vAssert("serializer-encode-same", err1 == nil && eqBytes(b1, fresh))
+	vAssert("encoder-encode-same", err2 == nil && eqBytes(b2, fresh))
+	o0, e0 := NewDecoder(nil, tm).Decode(fresh)
+	o1, e1 := s.ToObject(fresh)
+	o2, e2 := d.Decode(fresh)
+	g0, ok0 := o0.(*ZPair)
+	vAssert("fresh-decode-ok", e0 == nil && ok0 && eqZPair(probe, g0))
+	g1, ok1 := o1.(*ZPair)
+	g2, ok2 := o2.(*ZPair)
+	vAssert("serializer-decode-same", e1 == nil && ok1 && eqZPair(probe, g1))
+	vAssert("decoder-decode-same", e2 == nil && ok2 && eqZPair(probe, g2))
+}
+
 
 // H_C11_reuse: after any short history of earlier uses, a one-shot call gives exactly the bytes / value / error
 // a fresh instance gives; the probe value, the probe bytes and the (complete) maps are never written to.
